@@ -118,8 +118,10 @@ def load_harness(prop):
     return mod, kw
 
 
-def run_once(mod, prop, tape, tier, wall_limit=60):
+def run_once(mod, prop, tape, tier, wall_limit=None):
     """Execute one simulated run. Returns Result. Harness exceptions propagate."""
+    if wall_limit is None:
+        wall_limit = getattr(mod, 'WALL_LIMIT', {}).get((prop, tier), 90)
     old = signal.signal(signal.SIGALRM, _alarm)
     signal.setitimer(signal.ITIMER_REAL, wall_limit)
     try:
